@@ -401,6 +401,16 @@ def newVar (fuel : Nat) (s : DState) (v : Nat) : ValS → Option DState
         | none => none)
      | none => none)
 
+/-- `mut v path set <temporary containing v>` below the root (`selfTemp`): the temporary exists before the accessor
+    chain runs.  The model keeps one copy of `v` in the spare slot `tmpVar` for the time of the walk (so the root
+    accessor sees `ref > 1` exactly as with the caller's temporary), lets the leaf build its temporary from that copy,
+    and destroys the copy afterwards. -/
+def selfTempStep (fuel : Nat) (ds : DblSem) (s : DState) (v : Nat) (p : List Step) (e : ValS) : Option DState :=
+  match walkMut fuel ds (upd s.vars tmpVar (copyCell s.h (s.vars v)).2) (copyCell s.h (s.vars v)).1 (s.vars v) p
+      (.set (e.redirect v tmpVar)) with
+  | some (h2, c') => (release fuel h2 (copyCell s.h (s.vars v)).2).map (fun h3 => { h := h3, vars := upd s.vars v c' })
+  | none => none
+
 def leafSize : LeafS → Nat
   | .set (.list l) => l.length
   | .set (.array l) => l.length
@@ -429,7 +439,12 @@ def dstep (ds : DblSem) (s : DState) (op : Op) : Option DState :=
   | .mut v p lf =>
     (match p, lf with
      | [], .assign (.var w) => if v = w then some s else assignFrom fuel s v (s.vars w)
-     | p, lf => (walkMut fuel ds s.vars s.h (s.vars v) p lf).map (fun r => { h := r.1, vars := upd s.vars v r.2 }))
+     | p, lf =>
+       if selfTemp v p lf then
+         (match lf with
+          | .set e => selfTempStep fuel ds s v p e
+          | _ => none)
+       else (walkMut fuel ds s.vars s.h (s.vars v) p lf).map (fun r => { h := r.1, vars := upd s.vars v r.2 }))
   | .get v w p =>
     (match getCellPath s.h (s.vars w) p with
      | some c => if p.isEmpty && v = w then some s else assignFrom fuel s v c
